@@ -13,10 +13,17 @@ Respawn dimension: `spawn` is `&mut self`, one Command may be spawned from any n
 judged on its own by the same oracle (the configuration in force is what all builder calls SO FAR ask for) and compared
 with the model's `runStages` (Props: spawn_preserves_config, respawn_same_child, respawn_after_failed_spawn,
 respawn_round_depends_only_on_calls_and_own_faults, respawn_interleaved).
+Environment-builder dimension (checks/c13_env.py): sequences of env / envs (iterators of 0, 1, n items) / arg / args / cwd calls
+and spawns on ONE Command, in BOTH feature settings — without `start` through `harness/c13 --envseq`, with `start` through the
+no-libc probe harness-nolibc/c13probe (default environment Inherit = the probe's own envp, chosen by the check), plus the
+no-alloc front end `process::spawn` with an explicit Environment (harness-nolibc/c13free); the child reports the envp it was
+started with; judged by the property (nothing given: default environment, else exactly the given strings in order) and
+compared with `envRounds` (Props: builder_env_exact, respawn_env_exact, envs_nil_identity, envs_eq_foldl_env).
 """
 import json
 
 from . import common as C
+from . import c13_env
 
 CONFIGS = ["-", "a1", "a3,e2", "a5,e3,twice", "e4", "cwd", "uid,gid", "pg", "cl2", "cwd,uid,gid,pg,cl2", "io=nnn", "io=ppp", "io=npi",
            "io=iri", "io=pnr", "io=iio", "io=iei", "io=nio", "io=neo", "a2,e1,cwd,pg,cl1,io=npr", "nobin", "nobin,io=ppp,cwd", "clf13", "cl1,clf5,cwd", "clu", "io=pip,clu"]
@@ -423,6 +430,22 @@ def run_stream(ctx, exe, drv, stream, cases, base_of):
     if len(outs) != len(cases):
         ctx.violation({"stream": stream, "kind": "harness-died"}, {"rc": rc, "stderr": err[-300:]}, no_input=True)
         return []
+    # a case killed by the harness' 8 s watchdog on a machine under load is not a hang of spawn: a real one is
+    # deterministic and shows again when the case is run on its own (at most 16 cases, twice)
+    is_hang = lambda o: any(part.startswith("hang") for part in o.split(" ;; "))
+    hung = [i for i, o in enumerate(outs) if is_hang(o)]
+    for _attempt in range(2):
+        if not hung or len(hung) > 16:
+            break
+        again = []
+        for i in hung:
+            _, one, _ = C.run_filter([exe], [cases[i]], timeout=600)
+            again.append(one[0] if len(one) == 1 else outs[i])
+        for i, o in zip(hung, again):
+            if not is_hang(o):
+                outs[i] = o
+                ctx.hist("watchdog_kills_not_reproduced", stream)
+        hung = [i for i in hung if is_hang(outs[i])]
     ml, keep = [], []
     for c, o in zip(cases, outs):
         cs, fault = c.split()
@@ -513,11 +536,21 @@ def run(ctx):
                 "Command spawned from 2..%d times, unchanged or with further builder calls (args, env, streams, cwd, pgroup, closures) between the "
                 "spawns, every spawn measured and judged on its own, x {no fault; every single fault of every one of the spawns, the others "
                 "fault-free (a failed spawn followed by a clean one and vice versa)}; distinct_nontrivial = distinct (configuration, spawn number, "
-                "fault kinds, result, image verdict)" % (len(configs), len(respawn), max(len(Cfg(c).rounds) for c in respawn)))
+                "fault kinds, result, image verdict) + ENVIRONMENT BUILDER: every sequence of 1..3 calls over {env(v), env(same key), envs(0 items), "
+                "envs(1 item), envs(3 items), arg, spawn} + %d targeted + seeded random sequences (3..11 calls, envs of 0..5 items, repeated keys and "
+                "strings, keys of the caller's own environment, arg/args/cwd in between, 1..n spawns) on ONE real Command, in the build without "
+                "`start` (default None) and in the no-libc build with `start` (default Inherit) under caller environments of 0, 1 and 5 entries, "
+                "+ the no-alloc `process::spawn` with Environment::Inherit / None; distinct = (build, caller environment, call-shape of the sequence)"
+                % (len(configs), len(respawn), max(len(Cfg(c).rounds) for c in respawn), len(c13_env.TARGETED)))
     ctx.assumptions += [
-        "built without the `start` feature (std-hosted harness): Environment::Inherit does not exist in this build, so inherit-mode is "
-        "covered by the model (argv_envp_wellformed start=true, envSwitch) but not exercised on the implementation; "
-        "the no-alloc `spawn` function likewise (it shares do_spawn)",
+        "fault injection (sc-shim) runs in the build WITHOUT the `start` feature (std-hosted harness); the `start` build (no libc, "
+        "Environment::Inherit) and the no-alloc `process::spawn` front end are exercised fault-free, for the environment the image "
+        "receives (env-builder / env-free-spawn streams): they share do_spawn with the build the faults are injected into",
+        "env-builder: the image's environment is what the child `cat /proc/self/environ` prints (the kernel's copy of the envp strings "
+        "of the exec); the caller's environment of the `start` probe is chosen by the check (0, 1, 5 entries; as a Python dict: no "
+        "duplicate keys and no entry without '=' in the CALLER's environment — the variables given to env/envs do include both); "
+        "Command::exec (same envp selection, own copy of the match) is not exercised; `env` REPLACES the inherited environment by the "
+        "given variables and never looks at keys: that reading is the specification used (see env_drops_inherited / env_duplicates_kept)",
         "the exec target is the harness binary in --dump mode; its view (argv, environ, cwd, /proc/self/fd, pgid) is the observation of "
         "what the child is executing; uid/gid are set to the caller's own ids (no privilege to change them); the harness gives itself three "
         "distinct files as stdin/stdout/stderr so that an inherited stream is told from /dev/null and from a pipe; a MakePipe stream must be "
@@ -531,7 +564,9 @@ def run(ctx):
         "that reaches it (known finding C12 spawn_rawfd_late), so respawn configurations set every RawFd stream anew before each spawn — a "
         "RawFd carried into a later spawn is excluded (NoRaw in the respawn theorems), not judged",
     ]
-    ctx.trusted += ["harness/c13 + c12 casekit (sc-shim handler, inherited across fork; marker pipe; --dump exec target)"]
+    ctx.trusted += ["harness/c13 + c12 casekit (sc-shim handler, inherited across fork; marker pipe; --dump exec target)",
+                    "env-builder: harness/c13/src/envseq.rs (one source, included by the std-hosted harness and by the no-libc probes "
+                    "harness-nolibc/c13probe, c13free), /bin/cat + /proc/self/environ as the image's report of its environment"]
     ok = C.lean_prove(ctx, "TinyVerif.Props.C13", drivers=["drv_c13"])
     exe, err = C.cargo_build(ctx, "c13")
     if exe is None:
@@ -602,6 +637,8 @@ def run(ctx):
     rc, badh, _ = C.run_filter([exe], ["zz -", "a1 x", "a1", "a1,x0 -", "a1,fr1 -", "a1/x2 -", "io=np -"])
     if any(x != "bad-op" for x in bad + badh):
         ctx.violation({"kind": "malformed-accepted"}, {"driver": bad, "harness": badh}, no_input=True)
+    # ---- the environment builder as a state machine, both feature settings ----
+    c13_env.run_env_builder(ctx, drv, exe)
     for c, o in (list(zip(base_cases, base))[:3] + [x for x in zip(cases, outs) if " c" in x[0]][:2] + [x for x in zip(cases, outs) if "fork:e" in x[1]][:1]
                  + list(zip(rbase_cases, rbase))[3:5] + [x for x in zip(rcases, routs) if "fr1" in x[0] and " c" in x[0]][:2]):
         ctx.sample({"case": c, "implementation": o[:700]})
@@ -616,6 +653,8 @@ def run(ctx):
 
 
 def replay(ctx, rp):
+    if rp.get("replay", {}).get("stream") == "env-builder" and rp["replay"].get("case"):
+        return c13_env.replay_env(ctx, rp)
     case = rp.get("replay", {}).get("case")
     if not case:
         print("replay file names a broken obligation, not an input:", json.dumps(rp.get("replay"))[:600])
